@@ -130,6 +130,30 @@ Theorem C13_exhausted_sound : forall c pl bls b f b', brun (binit c pl) bls = So
   bstep b (BComplete f None) = Some b' -> plan b = [] /\ plan b' = [].
 Proof. exact exhausted_sound. Qed.
 
+(* ---- probe plans in virtual time (second tie) -------------------------------------------------- *)
+
+(* the trace-guided search of the driver decides membership in the model's set of traces *)
+Theorem C13_probe_guided : forall c interval tg o,
+  baccept_guided c interval tg o = baccept c interval tg o.
+Proof. exact baccept_guided_eq. Qed.
+
+(* acceptor soundness: every accepted trace satisfies the property predicate - its attempts begin
+   on the plan's targets in plan order (none twice, none skipped), every end closes an open attempt
+   on that target, and at no point of the observed event order are more attempts open than allowed:
+   1 if the gate is closed (not idempotent / no policy / no metrics), 1 + max otherwise *)
+Theorem C13_probe_accept_sound : forall c interval tg o,
+  baccept_guided c interval tg o = true -> prop_trace c tg o = true.
+Proof. exact probe_accept_sound. Qed.
+
+(* every accepted trace is the trace of a schedule of the gate / shared-plan semantics above (so
+   C13_gate, C13_gate_open, C13_distinct_targets apply to the run behind it) *)
+Theorem C13_probe_accept_schedule : forall c interval tg o,
+  baccept_guided c interval tg o = true ->
+  (exists bls b, brun (binit c (map fst tg)) bls = Some b /\ returned (core b) = Some (bo_res o) /\
+                 begins (bo_events o) = rev (drawn (draws b))) /\
+  is_prefix (begins (bo_events o)) (map fst tg) = true.
+Proof. exact probe_accept_schedule. Qed.
+
 (* non-vacuity: concrete schedules *)
 Definition ex_ign : rres := Err (LastAttemptError UnableToAllocStreamId).
 Definition ex_def : rres := Err (LastAttemptError (DbError Invalid)).
@@ -178,6 +202,22 @@ Example C13_ex_plan :
   brun (binit (ex_cfg true) [10%N]) [BComplete 0 (Some (Ok 1%N))] = None.
 Proof. repeat split; vm_compute; reflexivity. Qed.
 
+Example C13_ex_probe :
+  (* idempotent, max 2, interval 2, four targets: three attempts overlap *)
+  map bo_end (btimed_runs (ex_cfg true) 2%N [(1%N, 5%N); (2%N, 5%N); (3%N, 5%N); (4%N, 1%N)]) = [9%N; 9%N] /\
+  (* not idempotent: the same plan is walked by one fiber, one attempt at a time *)
+  btimed_runs (ex_cfg false) 2%N [(1%N, 5%N); (2%N, 1%N)]
+    = [mkBObs [EvBegin 1%N 0%N; EvEnd 1%N 5%N; EvBegin 2%N 5%N; EvEnd 2%N 6%N] (Err ConnectionPoolError) 6%N] /\
+  prop_trace (ex_cfg false) [(1%N, 5%N); (2%N, 1%N)]
+    (mkBObs [EvBegin 1%N 0%N; EvBegin 2%N 2%N; EvEnd 1%N 5%N; EvEnd 2%N 3%N] (Err ConnectionPoolError) 5%N) = false /\
+  prop_trace (ex_cfg true) [(1%N, 5%N); (2%N, 1%N)]
+    (mkBObs [EvBegin 1%N 0%N; EvBegin 2%N 2%N; EvEnd 2%N 3%N; EvEnd 1%N 5%N] (Err ConnectionPoolError) 5%N) = true /\
+  prop_trace (ex_cfg true) [(1%N, 5%N); (2%N, 1%N)]
+    (mkBObs [EvBegin 1%N 0%N; EvBegin 1%N 2%N; EvEnd 1%N 3%N; EvEnd 1%N 5%N] (Err ConnectionPoolError) 5%N) = false /\
+  baccept_guided (ex_cfg true) 2%N [(1%N, 5%N); (2%N, 1%N)]
+    (mkBObs [EvBegin 1%N 0%N; EvBegin 2%N 2%N; EvEnd 2%N 3%N; EvEnd 1%N 5%N] (Err ConnectionPoolError) 5%N) = true.
+Proof. repeat split; vm_compute; reflexivity. Qed.
+
 Print Assumptions C13_ignorable_table.
 Print Assumptions C13_bound.
 Print Assumptions C13_result.
@@ -196,3 +236,6 @@ Print Assumptions C13_gate_open.
 Print Assumptions C13_plan_conservation.
 Print Assumptions C13_distinct_targets.
 Print Assumptions C13_exhausted_sound.
+Print Assumptions C13_probe_guided.
+Print Assumptions C13_probe_accept_sound.
+Print Assumptions C13_probe_accept_schedule.
